@@ -427,7 +427,8 @@ FinalizeS2(s, w, a) ==
       sL  == IF late /\ lk.res = "ok" THEN LastOf(lk.steps) ELSE IF late THEN sC ELSE s
       wl  == sL.w[w]
       \* --- verification: algebra says whether the aggregate verifies
-      sentAct == {t \in TxBySlate(sL, w, a.sl, {wl.active}) : TRUE}
+      \* the proof check looks the entry up in the account of the context (fix: C01-4)
+      sentAct == {t \in TxBySlate(sL, w, a.sl, {cx0.acct}) : TRUE}
       sentAny == {t \in TxBySlate(sL, w, a.sl, AllAccts(sL, w)) : wl.txs[t].ty = "TxSent"}
       \* update_stored_tx takes the FIRST TxSent entry with this slate id (any account)
       tgt == CHOOSE t \in sentAny : \A u \in sentAny : wl.txs[t].id <= wl.txs[u].id \/ wl.txs[t].acct # wl.txs[u].acct
